@@ -169,6 +169,7 @@ def run_rt(spec, acc):
     threading.Thread(target=reader, daemon=True, name='vf-time-reader').start()
     t_end = time.time() + cfg['secs']
     case = 0
+    tcx = [clk.TempoClock(t) for t in (1, 2.5)]     # tempo never changes
     try:
         while time.time() < t_end:
             done_ev = threading.Event()
@@ -188,6 +189,17 @@ def run_rt(spec, acc):
                 r = Run(prog, 'rt', on_done, tag=case)
                 runs.append((r, prog))
                 case += 1
+            # a second plain thread keeps scheduling probe routines while the
+            # batch runs (the clocks are busy then)
+            probes = []
+            pstop = [False]
+
+            def prober(prng=random.Random(seed + case)):
+                while not pstop[0] and len(probes) < 150:
+                    probes.extend(thread_sched_probes(clk, main, prng, tcx))
+                    time.sleep(prng.choice([0, 0.0005, 0.002]))
+            pth = threading.Thread(target=prober, daemon=True, name='vf-prober')
+            pth.start()
             for k, (r, _) in enumerate(runs):
                 # from this plain thread, while the clock threads are busy with
                 # the programs started before: play(), or sched(delta) whose
@@ -197,8 +209,34 @@ def run_rt(spec, acc):
                 else:
                     r.start()
             done_ev.wait(10.0)
+            pstop[0] = True
+            pth.join(5)
+            time.sleep(0.08)        # the last probes' yields (<= 4 x 10 ms)
             with main._main_lock:
                 snap = [(r, p, r.done) for r, p in runs]
+                psnap = [dict(p) for p in probes]
+            for p in psnap:
+                if not p['obs']:
+                    acc.count('rt_thread_sched_probes_unfinished')
+                    continue
+                acc.count('rt_thread_sched_probes_checked')
+                lo, hi, unit = p['lo'], p['hi'], p['unit']
+                t0 = p['obs'][0]
+                if not (lo - 1e-6 <= t0 <= hi + 1e-6):
+                    acc.violation(
+                        f"C05/start-time-not-call-time-plus-delta/{p['how']}-from-thread/rt",
+                        {'probe': {k: v for k, v in p.items() if k != 'obs'},
+                         'observed': p['obs'][:4], 'start_minus_lo': t0 - lo})
+                    continue
+                exp = t0
+                for j, (d, o) in enumerate(zip(p['deltas'], p['obs'][1:])):
+                    exp = exp + d
+                    if (o != exp) if unit == 'secs' else (abs(o - exp) > 1e-9 * max(1.0, abs(exp))):
+                        acc.violation(f"C05/{'logical-seconds' if unit == 'secs' else 'tempo-beats'}"
+                                      f"-differ/thread-scheduled-routine/rt",
+                                      {'probe': {k: v for k, v in p.items() if k != 'obs'},
+                                       'k': j + 1, 'expected': exp, 'observed': o})
+                        break
             for r, prog, fin in snap:
                 nt, feats = nontrivial(prog)
                 acc.case(h64(json.dumps(prog, sort_keys=True)), nontrivial=nt)
@@ -226,6 +264,8 @@ def run_rt(spec, acc):
                     acc.sample({'mode': 'rt', 'program': prog, 'log_head': r.log[:8]})
                 r.stop_clocks()
     finally:
+        for c in tcx:
+            c.stop()
         reader_stop[0] = True
         acc.count('concurrent_time_reads', reads[0])
         slow_stop[0] = True
@@ -239,6 +279,49 @@ def run_rt(spec, acc):
     injected = cfg['p_yield'] or cfg['oversleep'] or cfg['slow'] or cfg['burners']
     if injected and acc.counters.get('max_rt_lateness_s', 0) < 0.001:
         acc.mark_inconclusive('no physical jitter >= 1 ms observed in an injected run')
+
+
+def thread_sched_probes(clk, main, rng, tcx):
+    """Routines scheduled from this plain thread with sched / sched_abs on
+    SystemClock and on TempoClocks whose tempo never changes: the first logical
+    time must lie in the interval [call begin, call end] + delta (this thread's
+    time is the physical present), the later ones follow the yielded deltas."""
+    from sc3.base.stream import Routine
+    out = []
+    for _ in range(rng.randint(1, 3)):
+        how = rng.choice(['SystemClock.sched', 'SystemClock.sched_abs',
+                          'TempoClock.sched', 'TempoClock.sched_abs'])
+        d = rng.choice([0, 0.001, 0.004, 0.02])
+        deltas = [rng.choice([0, 0.001, 0.003, 0.01]) for _ in range(rng.randint(1, 4))]
+        clock = clk.SystemClock if how.startswith('System') else rng.choice(tcx)
+        p = {'how': how, 'delta': d, 'deltas': deltas, 'obs': [],
+             'unit': 'secs' if clock is clk.SystemClock else 'beats'}
+
+        def body(p=None, clock=clock, deltas=deltas, rec=p):
+            sec = clock is clk.SystemClock
+            rec['obs'].append(clock.seconds if sec else clock.beats)
+            for x in deltas:
+                yield x
+                rec['obs'].append(clock.seconds if sec else clock.beats)
+        r = Routine(body)
+        if clock is clk.SystemClock:
+            c0 = main.elapsed_time()
+            if how.endswith('abs'):
+                clock.sched_abs(c0 + d, r)
+                p['lo'] = p['hi'] = c0 + d
+            else:
+                clock.sched(d, r)
+                p['lo'], p['hi'] = c0 + d, main.elapsed_time() + d
+        else:
+            b0 = clock.secs2beats(main.elapsed_time())
+            if how.endswith('abs'):
+                clock.sched_abs(b0 + d, r)
+                p['lo'] = p['hi'] = b0 + d
+            else:
+                clock.sched(d, r)
+                p['lo'], p['hi'] = b0 + d, clock.secs2beats(main.elapsed_time()) + d
+        out.append(p)
+    return out
 
 
 def run_nrt(spec, acc):
